@@ -280,19 +280,24 @@ Definition obs_mki (s : istate) : option bytes := if i_profile s =? 0 then None 
 (* ---------- how the Conn built by resumeWithConfig starts (conn.go prepareHandshakeStart) ----------
    [vmin], [vmax]: handshakeConfig.MinVersion / MaxVersion (normalised: each is 1.2 or 1.3);
    [resume]: handshakeConfig.ResumeState <> nil.  Only StartFinished uses the resume state
-   (prepareHandshakeStart12: client at Flight5, server at Flight6, FSM state FINISHED); the other
-   three run a new handshake (a client writes a plaintext ClientHello, a server waits for one). *)
-Inductive hs_start := StartFinished | StartNew12 | StartNew13 | StartDualStack.
+   (prepareHandshakeStart12: client at Flight5, server at Flight6, FSM state FINISHED); StartNew12 /
+   StartNew13 / StartDualStack run a new handshake (a client writes a plaintext ClientHello, a
+   server waits for one).  StartRefused: HandshakeContext filters the configured suites - already
+   cut down to the version range - by the version of the state it starts with; a resume state is
+   DTLS 1.2, so with a 1.3-only range nothing is left and the first Handshake/Read/Write fails with
+   ErrNoAvailableCipherSuites before anything is written. *)
+Inductive hs_start := StartFinished | StartNew12 | StartNew13 | StartDualStack | StartRefused.
 
 Definition hs_start_eqb (a b : hs_start) : bool :=
   match a, b with
   | StartFinished, StartFinished | StartNew12, StartNew12 | StartNew13, StartNew13
-  | StartDualStack, StartDualStack => true
+  | StartDualStack, StartDualStack | StartRefused, StartRefused => true
   | _, _ => false
   end.
 
 Definition handshake_start_gen (honour : bool) (vmin vmax : N) (resume : bool) : hs_start :=
-  if (vmax =? v12) || (honour && resume) then (if resume then StartFinished else StartNew12)
+  if (vmax =? v12) || (honour && resume)
+  then (if resume then (if vmin =? v13 then StartRefused else StartFinished) else StartNew12)
   else if vmin =? v13 then StartNew13
   else StartDualStack.
 Definition handshake_start : N -> N -> bool -> hs_start := handshake_start_gen resume_honoured_for_any_version.
